@@ -67,13 +67,19 @@ def make(shape: Dict[str, Any]) -> Any:
             import zeroconf._listener as lst
 
             recv_v6 = families[n_tr - 1] == 'v6'
-            src = 'fe80::9' if recv_v6 else '10.0.0.9'
+            src = shape.get('v6_src', 'fe80::9') if recv_v6 else '10.0.0.9'
             addrs: Any = (src, port, ctx.int('flow', 0, 2**20 - 1), ctx.int('scope', 0, 2**32 - 1)) if recv_v6 else (src, port)
             msg = mk_query(t0, qs, [], (src, port), id_=qid, probe_authorities=1 if probe else 0, data=b'q')
             saved_inc = lst.DNSIncoming
             lst.DNSIncoming = lambda data, source=None, scope_id=None, now=None: msg  # type: ignore[misc,assignment]
             try:
                 proto.datagram_received(b'q', addrs)
+                if shape.get('second_querier'):
+                    # another host sends the byte-identical query at the same instant (well inside the duplicate-suppression interval): it is owed its own unicast reply
+                    src2 = 'fe80::8' if recv_v6 else '10.0.0.8'
+                    addrs2: Any = (src2, port) + tuple(addrs[2:])
+                    msg = mk_query(loop.now_ms, qs, [], (src2, port), id_=qid, probe_authorities=1 if probe else 0, data=b'q')
+                    proto.datagram_received(b'q', addrs2)
             finally:
                 lst.DNSIncoming = saved_inc  # type: ignore[misc]
         else:
@@ -134,7 +140,11 @@ def make(shape: Dict[str, Any]) -> Any:
         uni = [s for s in immediate if not s.out.multicast]
         multi_now = [s for s in immediate if s.out.multicast]
         # ---- unicast reply
-        if exp_ucast:
+        if exp_ucast and shape.get('second_querier'):
+            if ctx.check(len(uni) == 2, f'{len(uni)} unicast transmissions for the same query from two hosts (each is owed a reply)'):
+                ctx.check(uni[0].addr == src and uni[1].addr == src2, 'the two unicast replies did not go to the two queriers')
+                ctx.check(answers_of([uni[0]]) == sorted(exp_ucast) and answers_of([uni[1]]) == sorted(exp_ucast), 'a querier did not get the unicast answers')
+        elif exp_ucast:
             if ctx.check(len(uni) == 1, f'{len(uni)} unicast transmissions for one query (expected one, on the receiving socket only)'):
                 u = uni[0]
                 ctx.check(u.addr == src and u.port == (port if port != 0 else 5353), f'unicast reply sent to {u.addr}:{u.port}, not to the source')
@@ -165,7 +175,7 @@ def make(shape: Dict[str, Any]) -> Any:
             ctx.check(s.out.multicast, 'delayed transmission is not a multicast reply')
         ctx.check(answers_of(multi_now) == sorted(exp_now), f'multicast at once: {answers_of(multi_now)} expected {sorted(exp_now)}')
         ctx.check(answers_of(later) == sorted(exp_later), f'multicast later: {answers_of(later)} expected {sorted(exp_later)}')
-        if exp_now:
+        if exp_now and not shape.get('second_querier'):  # (two queriers may each cause an immediate multicast)
             per_tr = sorted(s.transport for s in multi_now)
             ctx.check(per_tr == sorted(w.transport.name for w in zc.engine.senders), 'immediate multicast not sent once on every socket')
 
@@ -253,6 +263,9 @@ QUICK = {
     'dual-stack-v6-legacy': q((T1, PTR, False), transports=2, families=['v4', 'v6']),
     'dual-stack-v6-qu': q((N1, SRV, True), sighted=['SRV'], transports=2, families=['v4', 'v6']),
     'dual-stack-v4-qu': q((N1, SRV, True), sighted=['SRV'], transports=2, families=['v6', 'v4']),
+    'dual-stack-v4-mapped-legacy': q((T1, PTR, False), transports=2, families=['v4', 'v6'], v6_src='::ffff:10.0.0.9'),
+    'two-queriers-same-bytes': q((N1, SRV, True), ('Nobody._http._tcp.local.', SRV, False), sighted=['SRV'], transports=1, families=['v4'], second_querier=True, port=5353),
+    'two-queriers-same-bytes-v6': q((N1, SRV, True), sighted=['SRV'], transports=2, families=['v4', 'v6'], second_querier=True, port=5353),
 }
 THOROUGH = {
     'mixed-qm-qu': q((T1, PTR, False), (N1, SRV, True), sighted=['PTR', 'SRV']),
